@@ -22,7 +22,7 @@
    keys of the sqlite tables / cosmos items).  Nothing else is assumed: every store, every now, stamp
    and maxAge (also zero or negative), both values of the flag. *)
 From Coercion.Base Require Import Plan.
-From Coercion.Select Require Import Rows Select SelectSpec SelectProofs CrashProofs SelectExamples.
+From Coercion.Select Require Import Rows Select SelectSpec SelectProofs CrashProofs CloseProofs SelectExamples.
 
 Theorem c11_resume_selection :
   forall (s : list plan) (now stamp maxAge : Z) (recovery : bool),
@@ -115,17 +115,47 @@ Proof. exact open_workstream_repairs_first. Qed.
 Print Assumptions c11_storage_recovery_first.
 
 (* An interrupted close (R10, fix f93b03f: children first, ending at the plan's last recorded activity;
-   plan row LAST).  FULL STATEMENT WANTED: for every j, the store after the first j writes of the close of
-   p, opened again by any later start-up with the same maxAge and a later clock, yields exactly
-   [close_plan (last_update p) stamp' p] (for j = all writes: stamp), nothing Running, not resumed.
-   PROVED IN GENERAL (below): as long as the last write (the plan row) has not been made, every row of the
-   plans table is exactly as before - p is still durably Running with its old times, so the next start-up's
-   Search finds it again (c11_interrupted_close_keeps_plan_rows_partial); with all writes made the store is
-   the one [select] returns (c11_crash_after_all_writes).  CHECKED BY vm_compute FOR EVERY j on the 9-row
-   example plan (c11_ex_interrupted_close_is_completed_every_j, c11_ex_last_update_unchanged_by_prefix), and
-   on every run by the harness family "crash during the close" for every j of generated plans.  MISSING in
-   general: that a prefix of the close leaves [last_update] and the result of the repeated close unchanged
-   (idempotence of [fail_running last] and max-preservation; not closed in the time available). *)
+   plan row LAST), repeated by the next start-up, is the close.
+
+   For EVERY j: the store after the first j writes of the close of a Running plan p (a process that died,
+   or whose (j+1)-th Update* failed, anywhere in the close), opened again by ANY later start-up at which p
+   is stale ([is_stale now' maxAge p]: by c11_stale_is_monotone any later clock with the same maxAge), gives
+   for p's row exactly the closed plan - [close_plan (last_update p) stamp' p], the plan row carrying the
+   stamp of the start-up that finished the close (for j = all writes nothing is left to do and it is the
+   first one's) - with nothing Running, Failed / ExceedRecovery, and p is not handed to runPlan (so no
+   plugin runs).  Proof: a prefix of the close's writes leaves the plan row and [last_update] unchanged
+   (every closed object ends at last_update p, which the maximum already ranges over), so p is found
+   again, is stale again, and closing it again is idempotent (only Running objects are touched). *)
+Theorem c11_interrupted_close_then_restart_closes :
+  forall (s : list plan) (stamp : Z) (p : plan) (j : nat) (now' stamp' maxAge : Z),
+    keys_unique s -> In p s -> is_running p -> is_stale now' maxAge p ->
+    let s1 := persist s (firstn j (writes_aged (age_out stamp p))) in
+    let r := select now' stamp' maxAge true s1 in
+    Forall2 (fun q q' =>
+               pid q = pid p ->
+               q' = close_plan (last_update p)
+                               (if Nat.ltb j (length (writes_aged (age_out stamp p))) then stamp' else stamp) p /\
+               nothing_running q' /\ status_of (p_state q') = Some Failed /\ p_reason q' = FRExceedRecovery)
+            s (fst r) /\
+    ~ In (pid p) (snd r).
+Proof. exact interrupted_close_then_restart_closes. Qed.
+Print Assumptions c11_interrupted_close_then_restart_closes.
+
+Theorem c11_stale_is_monotone :
+  forall (now now' maxAge : Z) (p : plan),
+    is_stale now maxAge p -> (instant now <= instant now')%Z -> is_stale now' maxAge p.
+Proof. exact is_stale_later. Qed.
+Print Assumptions c11_stale_is_monotone.
+
+(* a prefix of the close does not change what lastUpdate returns *)
+Theorem c11_close_prefix_keeps_last_update :
+  forall (stamp : Z) (G : gmap) (p : plan),
+    pclose (last_update p) stamp G p -> last_update (tm_plan G p) = last_update p.
+Proof. exact pclose_last_update. Qed.
+Print Assumptions c11_close_prefix_keeps_last_update.
+
+(* one ingredient, kept as a statement of its own: as long as the last write (the plan row) has not been
+   made, every row of the plans table is exactly as before *)
 Theorem c11_interrupted_close_keeps_plan_rows_partial :
   forall (s : list plan) (stamp : Z) (p : plan) (j : nat),
     (j <= length (tl (rows_plan (age_out stamp p))))%nat ->
